@@ -19,6 +19,7 @@ import (
 	authtypes "github.com/cosmos/cosmos-sdk/x/auth/types"
 	bankkeeper "github.com/cosmos/cosmos-sdk/x/bank/keeper"
 	banktypes "github.com/cosmos/cosmos-sdk/x/bank/types"
+	sdkvesting "github.com/cosmos/cosmos-sdk/x/auth/vesting/types"
 	abci "github.com/tendermint/tendermint/abci/types"
 )
 
@@ -267,6 +268,35 @@ func execDistr(x *Exec, toks []string) string {
 			}
 		} else if err := f.helperBk.SendCoinsFromModuleToAccount(x.ctx, mintertypes.ModuleName, addr, coins); err != nil {
 			panic(err)
+		}
+		f.track(toks[1])
+		return "."
+	case "d.lockacct":
+		// turn the (base) account into a continuous vesting account whose original vesting is `coins`,
+		// vesting over the next ten years: the bank then reports `coins` as locked
+		addr, err := sdk.AccAddressFromBech32(toks[1])
+		if err != nil {
+			panic(err)
+		}
+		coins := parseCoinsTok(toks[2])
+		acc := app.AccountKeeper.GetAccount(x.ctx, addr)
+		if acc == nil {
+			acc = app.AccountKeeper.NewAccountWithAddress(x.ctx, addr)
+		}
+		var ba *authtypes.BaseAccount
+		switch v := acc.(type) {
+		case *authtypes.BaseAccount:
+			ba = v
+		case *sdkvesting.ContinuousVestingAccount:
+			ba = v.BaseAccount // locked again: the new original vesting replaces the old one
+		default:
+			panic("d.lockacct: not a base account: " + toks[1])
+		}
+		start := x.ctx.BlockTime().Unix()
+		va := sdkvesting.NewContinuousVestingAccount(ba, coins, start, start+10*365*86400)
+		app.AccountKeeper.SetAccount(x.ctx, va)
+		if got := app.BankKeeper.LockedCoins(x.ctx, addr); !got.IsEqual(coins) {
+			panic("d.lockacct fact: bank reports locked " + got.String() + ", expected " + coins.String())
 		}
 		f.track(toks[1])
 		return "."
